@@ -250,7 +250,9 @@ class C17:
              "~", "~/x", "~root", "~root/x", "~bin/ls", "~nosuchuser9/x", "~nosuchuser9/td/" + TARGET, "~" + "a" * 300, "~r", "~roo", "~rootx/y",
              "nosuch.conf", ".", "d1", "d1/" + TARGET, "/dev/null", "fifo.conf", "@ROOT@/d1/fifo.conf",
              "link.conf", "dangling.conf", "linkdir.conf", "@ROOT@/d2/link.conf", "@ROOT@/d1/dangling.conf",
-             "./" + TARGET, ".dot.conf", "../@BASE@/d2/" + TARGET, "sub/../" + TARGET, "~root/x/y", "~bin/a/b/c.conf", "~root//x", "~/x/y/z"]
+             "./" + TARGET, ".dot.conf", "../@BASE@/d2/" + TARGET, "sub/../" + TARGET, "~root/x/y", "~bin/a/b/c.conf", "~root//x", "~/x/y/z",
+             # expansions longer than any fixed buffer (PATH_MAX is 4096): the result is still home + complete tail
+             "~/" + "p/" * 2100 + "x.conf", "~root/" + "q" * 5000, "~/" + "z" * 4085, "~/" + "z" * 4090 + "/" + "y" * 20, "~bin/" + "b/" * 9000]
 
     def run(self, r):
         placements = ["".join(p) for p in itertools.product("fdn", repeat=4)]
